@@ -60,7 +60,19 @@ def match_idx(match):
 
 def run_case(ctx, pdb2sql, case, rep=None):
     structs = case['structures']
-    db = pdb2sql.many2sql([[gen_pdb.atom_line(a) for a in s] for s in structs])
+    inputs, objs = [], []
+    for s_atoms, as_obj in zip(structs, case.get('as_objects') or [False] * len(structs)):
+        if as_obj:
+            # the structure is handed over as a pdb2sql OBJECT whose present content differs from the text it was built
+            # from (x set afterwards with update_column): what counts is the object's state at the time of the call
+            o = pdb2sql.pdb2sql([gen_pdb.atom_line(dict(a, x=0.0)) for a in s_atoms])
+            o.update_column('x', [float(a['x']) for a in s_atoms])
+            inputs.append(o); objs.append(o)
+        else:
+            inputs.append([gen_pdb.atom_line(a) for a in s_atoms])
+    db = pdb2sql.many2sql(inputs)
+    for o in objs:
+        o._close()
     names = db._get_table_names()
     tables = [canon_rows(db.get('*', tablename=n)) for n in names]
     out = {}
@@ -135,6 +147,8 @@ def explore(ctx, tier, rng, search=False):
         cols = COLSETS[k % len(COLSETS)]
         sel = rng.choice([{}, {'chainID': 'A'}, {'name': ['CA', 'N', 'C', 'O']}, {'resSeq': [1, 10, 11]}])
         case = {'structures': structs, 'match': match, 'cols': cols, 'sel': sel}
+        if rng.random() < 0.35:
+            case['as_objects'] = [rng.random() < 0.6 for _ in structs]; feats.add('structures-given-as-modified-objects')
         feats.add(f'structures-{ns}'); feats.add('match-' + '+'.join(match)); feats.add('cols-' + cols)
         try:
             out = run_case(ctx, pdb2sql, case)
